@@ -1,6 +1,6 @@
 (* Proofs/SideC08.v — side conditions tying Model/ConnState.v to the values regenerated from /repo
    (Gen/C08.v): re-proved for the current values on every run. *)
-From TX Require Import Model.ConnState Proofs.ConnState Gen.C08.
+From TX Require Import Base.Val Model.ConnState Proofs.ConnState Gen.C08.
 From Coq Require Import Lia ZArith ZifyN ZifyNat ZifyBool.
 Open Scope N_scope.
 
@@ -42,4 +42,25 @@ Proof. split; reflexivity. Qed.
 Lemma configured_heartbeats_keep_alive n c k :
   kept ConnStateTTLms n c (beats n c ClientKeepaliveMs k) 0 = true.
 Proof. apply kept_beats; [exact (proj1 keepalive_within_ttl)|exact ttl_positive]. Qed.
+
+(* ---- handshake request shapes: the server's own classification (probed on the real handleHandshake for all 32 shapes)
+        agrees with the model's, and is tied to what the store indexes ---- *)
+Definition shape_row_ok (it : nat * (bool * bool * list N * bool)) : bool :=
+  let '(k, (is_ctl, has_rec, ct, indexed)) := it in
+  Bool.eqb is_ctl (shape_is_control (N.of_nat k))            (* the model classifies the shape as the code does *)
+  && Bool.eqb has_rec is_ctl                                  (* a record is written exactly for control handshakes *)
+  && Bool.eqb indexed is_ctl                                  (* ... and exactly those clients can be looked up *)
+  && (negb has_rec || match lookup store_indexes_conntype ct with Some true => true | _ => false end).
+                                                              (* the ConnType it registers is one the store indexes *)
+
+Lemma handshake_classification_matches_store_index :
+  length handshake_shapes = 32%nat /\
+  forallb shape_row_ok (combine (seq 0 32) handshake_shapes) = true.
+Proof. split; vm_compute; reflexivity. Qed.
+
+(* the store builds the client index for "control" only: anything handleHandshake registers for a control connection
+   must therefore carry exactly that ConnType *)
+Lemma store_indexes_control_only :
+  map snd store_indexes_conntype = [true; false; false; false].
+Proof. vm_compute. reflexivity. Qed.
 Close Scope N_scope.
